@@ -39,8 +39,12 @@ func init() {
 		}}
 	}
 	libModels = map[string]libModel{
-		"log/slog.Error": noop("log/slog.Error is dropped (logging)"),
-		"fmt.Sprintf":    noop("fmt.Sprintf yields an opaque string"),
+		"log/slog.Error":       noop("log/slog.Error is dropped (logging)"),
+		"fmt.Sprintf":          noop("fmt.Sprintf yields an opaque string"),
+		"time.Now":             noop("time.Now / UnixNano yield an arbitrary integer (seed of the random source)"),
+		"(time.Time).UnixNano": noop("time.Now / UnixNano yield an arbitrary integer (seed of the random source)"),
+		"math/rand.NewSource":  noop("math/rand.NewSource / rand.New yield an opaque source of random numbers"),
+		"math/rand.New":        noop("math/rand.NewSource / rand.New yield an opaque source of random numbers"),
 		"fmt.Errorf": {pure: true, run: func(x *Exec, st *State, fr *Frame, ce *ast.CallExpr, recv Term, args []Term, k func(*State, []Term)) {
 			x.trust("fmt.Errorf yields an opaque non-nil error")
 			e := x.d.fresh("errval", x.errSort())
